@@ -15,11 +15,11 @@ CONSTANTS Variant, NChunks
 
 Traces == JsonDeserialize(IOEnv.TRACE_FILE)
 
-VARIABLES fs, op, keep, pc, k, result, srcAtStart, tid, pos, prop, impl
+VARIABLES fs, op, keep, pc, k, result, srcAtStart, pubAtStart, tid, pos, prop, impl
 
 C == INSTANCE Compress
 
-cvars == <<fs, op, keep, pc, k, result, srcAtStart>>
+cvars == <<fs, op, keep, pc, k, result, srcAtStart, pubAtStart>>
 vars == <<cvars, tid, pos, prop, impl>>
 R == Traces[tid]
 St(i) == R.steps[i]
@@ -56,7 +56,7 @@ ActionFor(label) ==
 Init ==
     /\ tid \in 1..Len(Traces)
     /\ fs = St(1).fs
-    /\ op = "none" /\ keep = TRUE /\ pc = "idle" /\ k = 0 /\ result = "none" /\ srcAtStart = "A"
+    /\ op = "none" /\ keep = TRUE /\ pc = "idle" /\ k = 0 /\ result = "none" /\ srcAtStart = "A" /\ pubAtStart = FALSE
     /\ pos = 1 /\ prop = "" /\ impl = ""
 
 \* the call starts: steps[1] is the directory at call entry
@@ -68,7 +68,7 @@ TStart ==
        IN IF ENABLED A
           THEN A /\ impl' = impl
           ELSE /\ op' = R.op /\ keep' = R.keep /\ pc' = "lost" /\ k' = 0 /\ result' = "none"
-               /\ srcAtStart' = fs[IF R.op = "compress" THEN "bin" ELSE "cbin"] /\ fs' = fs
+               /\ srcAtStart' = fs[IF R.op = "compress" THEN "bin" ELSE "cbin"] /\ fs' = fs /\ pubAtStart' = C!PairComplete(fs)
                /\ impl' = Pick(impl, << <<FALSE, "Start:" \o R.op>> >>)
     /\ pos' = 2 /\ UNCHANGED <<tid, prop>>
 
@@ -79,7 +79,7 @@ TStep ==
         LET A == fs' = obs /\ ActionFor(lab) IN
         /\ IF ENABLED A
            THEN A /\ impl' = impl
-           ELSE /\ fs' = obs /\ pc' = "lost" /\ k' = k /\ keep' = keep /\ srcAtStart' = srcAtStart
+           ELSE /\ fs' = obs /\ pc' = "lost" /\ k' = k /\ keep' = keep /\ srcAtStart' = srcAtStart /\ pubAtStart' = pubAtStart
                 /\ op' = (IF lab \in {"return", "fail", "refuse"} THEN "none" ELSE op)
                 /\ result' = (IF lab = "return" THEN "ok" ELSE IF lab = "fail" THEN "failed"
                               ELSE IF lab = "refuse" THEN "refused" ELSE result)
@@ -90,6 +90,8 @@ TStep ==
               <<lab \notin {"return", "fail"} \/ C!SourceUntouchedP(R.op, IF lab = "fail" THEN "failed" ELSE "ok", srcAtStart, obs),
                 "SourceUntouchedOnFailure">>,
               <<lab # "return" \/ C!CompletedP(R.op, R.keep, "ok", obs), "Completed">>,
+              <<lab # "fail" \/ C!FailedAtChunkP(R.op, "failed", IF St(pos - 1).at = "cchunk" THEN "chunk" ELSE "other", pubAtStart, obs),
+                "FailedLeavesPublishedComplete">>,
               \* the Reader object that performed the call, re-opened, still exposes the recording
               <<lab # "return" \/ R.reopen \in {"ok", "skip"}, "ReaderFollows">> >>)
     /\ pos' = pos + 1 /\ UNCHANGED tid
